@@ -137,6 +137,17 @@ def main():
         inline = rng.random() < 0.35
         for _ in range(1 if inline else rng.randint(1, 4)):
             regs = color_regs(rng, mode)
+            prev = stages[-1][2] if stages else default
+            if prev is not None and rng.random() < 0.4:
+                # this stage's colour differs from the previous one (or from the default colour) in
+                # exactly ONE component — e.g. a white-temperature gradient: kelvin only
+                regs = dict(prev)
+                key = rng.choice(sorted(regs))
+                other = [v for v in ([2500, 3500, 4000, 9000] if key == 'kelvin' else
+                                     [color_regs(rng, mode).get(key, 0) for _ in range(4)]) if v != regs[key]]
+                if other:
+                    regs[key] = rng.choice(other)
+                stats['one_component_steps'] = stats.get('one_component_steps', 0) + 1
             rows = None if rng.random() < 0.3 else (lambda a: (a, None if rng.random() < 0.4 else rng.randrange(a, h)))(rng.randrange(h))
             cols = None if rng.random() < 0.3 else (lambda a: (a, None if rng.random() < 0.4 else rng.randrange(a, w)))(rng.randrange(w))
             if rows is None and cols is None:
